@@ -6,6 +6,8 @@ no proofs), so it builds as a native executable.
 import Lean.Data.Json
 import ThaiLintModel.C01.Drv
 import ThaiLintModel.C07.Drv
+import ThaiLintModel.C08.Drv
+import ThaiLintModel.C10.Drv
 import ThaiLintModel.C14.Drv
 import ThaiLintModel.C15.Drv
 open Lean
@@ -14,6 +16,8 @@ def dispatch (j : Json) : Json :=
   match (j.getObjValAs? String "prop").toOption.getD "" with
   | "C01" => ThaiLintModel.C01.handle j
   | "C07" => ThaiLintModel.C07.handle j
+  | "C08" => ThaiLintModel.C08.handle j
+  | "C10" => ThaiLintModel.C10.handle j
   | "C14" => ThaiLintModel.C14.handle j
   | "C15" => ThaiLintModel.C15.handle j
   | p => Json.mkObj [("error", s!"unknown prop {p}")]
